@@ -49,6 +49,40 @@ Proof.
   rewrite (absolute_relative_exclusive s E). reflexivity.
 Qed.
 
+(* everything of part (1) in one statement (one Print Assumptions walks the two big `ka` proofs once) *)
+Theorem validation_is_rfc3987 :
+  (forall w, matchb iri_regex w = matchb IRI w) /\
+  (forall w, matchb irelative_ref_regex w = matchb irelative_ref w) /\
+  (forall s, is_absolute_iri_ref s = matchb IRI s) /\
+  (forall s, is_relative_iri_ref s = matchb irelative_ref s) /\
+  (forall s, is_valid_iri_ref s = matchb IRI_reference s) /\
+  (forall s, iri_new_ok s = matchb IRI s) /\
+  (forall s, iriref_new_ok s = matchb IRI_reference s) /\
+  (forall ns suffix, namespace_get_ok ns suffix = matchb IRI_reference ns && matchb IRI_reference (ns ++ suffix)) /\
+  (forall s, is_absolute_iri_ref s = true <-> Lang.langc IRI s) /\
+  (forall s, is_relative_iri_ref s = true <-> Lang.langc irelative_ref s) /\
+  (forall w, matchb IRI w = true -> matchb irelative_ref w = false) /\
+  (forall s, is_absolute_iri_ref s = true -> is_relative_iri_ref s = false) /\
+  (forall s, is_valid_iri_ref s = xorb (is_absolute_iri_ref s) (is_relative_iri_ref s)).
+Proof.
+  repeat split.
+  - exact EquivIri.iri_regex_is_rfc3987.
+  - exact EquivIrel.irel_regex_is_rfc3987.
+  - exact is_absolute_iri_ref_spec.
+  - exact is_relative_iri_ref_spec.
+  - exact is_valid_iri_ref_spec.
+  - exact iri_new_spec.
+  - exact iriref_new_spec.
+  - exact namespace_get_spec.
+  - apply is_absolute_iri_ref_lang.
+  - apply is_absolute_iri_ref_lang.
+  - apply is_relative_iri_ref_lang.
+  - apply is_relative_iri_ref_lang.
+  - exact Classify.iri_irelative_ref_disjoint.
+  - exact absolute_relative_exclusive.
+  - exact valid_iff_absolute_xor_relative.
+Qed.
+
 (* ---------- the pre-fix regexes (frozen copy) are NOT the grammar ---------- *)
 Definition s_valid_rejected : str :=    (* "http://[1:2::3]/" *)
   [104;116;116;112;58;47;47;91;49;58;50;58;58;51;93;47].
